@@ -51,7 +51,7 @@ theorem processDeal_cases (g : G) (d : Gen F G) (dd : DkgDeal F G) (hd : GoodGen
         rcases hdeal : dd.deal with _ | e
         · exact ⟨ver, rfl, Or.inl ⟨hva, _, rfl⟩⟩
         · simp only
-          rcases pe_fresh g ver e 0 hva (by rw [hvi, hvv]; exact hd.lt) with ⟨err, herr⟩ | ⟨dl, r, a, hdec, hpe, hri, hrs, hsig, hst, hshare, h1, h2, h3, h5, h4, h6, h7⟩
+          rcases pe_fresh g ver e 0 hva (by rw [hvi, hvv]; exact hd.lt) with ⟨err, herr⟩ | ⟨dl, r, a, hdec, hpe, hri, hrs, hsig, hst, hshare, h1, h2, h3, h5, h4, h6, h7, _⟩
           · rw [herr]; exact ⟨ver, rfl, Or.inl ⟨hva, _, rfl⟩⟩
           · rw [hpe]
             simp only
